@@ -97,3 +97,31 @@ def implies(a, b):
 
 tdiv = truncdiv
 trem = truncrem
+
+
+# ---- text renderers (trusted CPython renderers applied to a value) ---------------------------------
+
+
+def f32_text(x):
+    """text CPython prints for the binary32 value with bit pattern x (0 <= x < 2^32)"""
+    import struct
+
+    x = val(x)
+    if type(x) is builtins.int:
+        return str(struct.unpack(">f", x.to_bytes(4, "big"))[0])
+    from . import text
+
+    return text.table().span("f32", x)
+
+
+def chr_text(x):
+    x = val(x)
+    if type(x) is builtins.int:
+        return chr(x)
+    from . import text
+
+    return text.sym_chr(x)
+
+
+def fmt(x, spec=""):
+    return format(val(x), spec)
